@@ -54,7 +54,7 @@ def dump(e):
         return ast.dump(e)
 
 
-def returning_body(stmts, expr, drop=lambda s: False):
+def returning_body(stmts, expr, drop=lambda s: False, rebind=lambda s: None):
     """Statements of the shape  (if c: <returning>)* return e  ->  nested Gallina if-then-else.
     `expr` translates an expression; `drop` says which statements are inert (ui output)."""
     stmts = [s for s in strip_doc(stmts) if not drop(s)]
@@ -65,11 +65,14 @@ def returning_body(stmts, expr, drop=lambda s: False):
         if s0.value is None:
             raise Reject("bare return")
         return expr(s0.value)
+    rb = rebind(s0)
+    if rb is not None:
+        return "(let %s := %s in %s)" % (rb[0], rb[1], returning_body(rest, expr, drop, rebind))
     if isinstance(s0, ast.If):
         body = [s for s in s0.body if not drop(s)]
         if not body and not s0.orelse:
-            return returning_body(rest, expr, drop)
-        then = returning_body(s0.body, expr, drop)
-        els = returning_body(s0.orelse if s0.orelse else rest, expr, drop)
+            return returning_body(rest, expr, drop, rebind)
+        then = returning_body(s0.body, expr, drop, rebind)
+        els = returning_body(s0.orelse if s0.orelse else rest, expr, drop, rebind)
         return "(if %s then %s else %s)" % (expr(s0.test), then, els)
     raise Reject("unsupported statement: " + dump(s0))
